@@ -30,3 +30,28 @@ func casRace(c *Ctx, prop string) {
 	}
 	c.R.Merge(sub, func(sig string) bool { return strings.HasPrefix(sig, prop+":") })
 }
+
+// outOrder explores the completion orders of a target's concurrent output
+// writers in the real Registry.WriteOutputs; signatures are re-labelled for prop.
+func outOrder(c *Ctx, prop string) {
+	ov := schedOverlay(c, "sched-outorder", nil, []string{"outorder"})
+	if ov == nil {
+		return
+	}
+	bin, err := vc.BuildHarnessTest("outorder", ov, "outorder", false)
+	if err != nil {
+		c.R.BrokenCheck("%v", err)
+		return
+	}
+	bound, budget := "2", "20"
+	if c.Thorough {
+		bound, budget = "3", "200"
+	}
+	sub := vc.NewReport(prop, c.Tier)
+	// one process: the canonical schedule's hash is the reference for all other schedules
+	vc.RunHarness(sub, vc.HarnessRun{Bin: bin, Env: map[string]string{"VERIF_TIER": c.Tier, "VERIF_BOUND": bound, "VERIF_BUDGET_S": budget, "GOMAXPROCS": "1"}, Tag: "outorder"})
+	if prop != "C09" {
+		sub.Relabel(func(sig string) string { return prop + strings.TrimPrefix(sig, "C09") })
+	}
+	c.R.Merge(sub, func(sig string) bool { return strings.HasPrefix(sig, prop+":") })
+}
